@@ -2586,6 +2586,16 @@ impl Block {
             }
         }
 
+        // a placeholder carries the hash it stands for in the first half of its signature field: that is
+        // where the receiving side reads it from (the hash itself does not travel)
+        for tx in pruned_txs.iter_mut() {
+            if tx.transaction_type == TransactionType::SPV {
+                let mut signature = [0; 64];
+                signature[0..32].copy_from_slice(&tx.hash_for_signature.unwrap());
+                tx.signature = signature;
+            }
+        }
+
         // Create the block with pruned transactions
         let mut block = Block::new();
 
